@@ -71,6 +71,7 @@ def main():
             inv = [l.strip() for l in p.stdout.splitlines() if l.strip().startswith("invariant=")]
             caught = p.returncode == 1 and bool(viol)
             results.append({"id": m["id"], "world": m["world"], "caught": caught,
+                            "expect": m.get("expect", "caught"),
                             "exit": p.returncode, "wall_s": round(dt, 1),
                             "invariants": sorted(set(i.split()[0] for i in inv))[:6],
                             "note": m.get("note", "")})
@@ -90,7 +91,7 @@ def main():
     if not (args.world or args.id):
         with open(os.path.join(HERE, "tools", "mutants_last_result.json"), "w") as f:
             json.dump({"results": results}, f, indent=1, sort_keys=True)
-    missed = [r["id"] for r in results if not r["caught"]]
+    missed = [r["id"] for r in results if not r["caught"] and r["expect"] == "caught"]
     print("mutants: %d, caught: %d, missed: %s" % (len(results), len(results) - len(missed), missed))
     return 1 if missed else 0
 
